@@ -24,6 +24,13 @@ func init() {
 	})
 	register("C10", func(r *vk.Report) {
 		eseqCheck(r, "C10", "fallback", []string{"fallback", "ret", "verdict", "events:fb."})
+		vk.Parallel(scale(r, 300, 20000), 8, func(i int) {
+			if r.Skip(80000000 + i) {
+				return
+			}
+			c10Overlapping(r, 80000000+i)
+		})
+		r.Rule += " Plus rounds in which ONE fallback instance (function, result, error kind; the function takes 200us) serves 2-8 goroutines' overlapping executions, or the hedged attempts of Hedge(Fallback(fn)): every handled failure gets the fallback applied exactly once (returned output, function invocations and OnFallbackExecuted events equal the handled failures)."
 	})
 	register("C11", func(r *vk.Report) {
 		eseqCheck(r, "C11", "cache", []string{"cache", "inv", "ret", "state", "events:cache.", "events:brk.", "events:rl.", "events:bh."})
@@ -84,6 +91,12 @@ func init() {
 			c16ExceededOnce(r, 29000000+i)
 		})
 		failsafe.VerifSetYield(nil)
+		vk.Parallel(scale(r, 60, 3000), 16, func(i int) {
+			if r.Skip(31000000 + i) {
+				return
+			}
+			c16LimiterWaitCancelledAfterRejection(r, 31000000+i)
+		})
 		// concurrent executions sharing listeners: exactly one OnDone and one of OnSuccess/OnFailure per execution
 		rr := vk.Rng(r.Seed, "C16c", 0)
 		comps := c14Compositions(rr, true)
